@@ -219,7 +219,7 @@ def _mk_assignment(ncand, ntrk, nres, extra_tracks=0):
                  for f, t, w in stream]
         voting = Cell(mk(P, 'SortVoting', threshold=thr, candidate_num=usize(ncand), track_num=usize(ntrk + extra_tracks)), 'voting')
         r = vm.exec_fn(fn, [Ref(voting), VecV(tuple(items))], {'T': 'Vec<ObservationMetricOk<Universal2DBox>>'})
-        vm.notes.update(ncand=ncand, ntrk=ntrk, nres=nres)
+        vm.notes.update(ncand=ncand, ntrk=ntrk, nres=nres, extra=extra_tracks)
         # i64 weight of a stream entry, exactly as the code converts it
         def conv(w):
             if w is None:
@@ -293,37 +293,29 @@ def _mk_assignment(ncand, ntrk, nres, extra_tracks=0):
 
 def _replay_assignment(cex, v, vm):
     n = vm.notes
-    ins = cex['inputs']
 
     def g(name):
         return cex_get(cex, name)
-    items = []
+    pairs = ", ".join("(%du64, %du64)" % (g('cand%d' % fi), g('track%d' % ti)) for fi, ti in n['pairs'])
+    present = []
+    weights = []
     for k in range(n['nres']):
-        w = None
         try:
-            w = grid_value(cex, vm, 'w%d' % k)
+            weights.append("%rf32" % grid_value(cex, vm, 'w%d' % k))
         except KeyError:
-            pass
-        items.append("ObservationMetricOk { from: %du64, to: %du64, attribute_metric: %s, feature_distance: None }" % (
-            g('cand%d' % n['pairs'][k][0]), g('track%d' % n['pairs'][k][1]), ("Some(%s)" % rust_f32(w)) if w is not None else "None"))
-    thr = g('threshold')
+            weights.append("0.0f32")
     return '''
 use similari::track::ObservationMetricOk;
 use similari::trackers::sort::voting::SortVoting;
+use similari::utils::bbox::Universal2DBox;
 use similari::voting::Voting;
 
-#[test]
-fn replay() {
-    // threshold (i64, x10^6) = %(thr)d
-    let v = SortVoting::new(%(thrf)r, %(nc)d, %(nt)d);
-    let dists = vec![%(items)s];
-    let stream = dists.clone();
-    let res = v.winners(dists);
-    // brute force: best total over all one-to-one assignments
+fn check(stream: &Vec<ObservationMetricOk<Universal2DBox>>, thrf: f32, nc: usize, nt: usize) {
+    let res = SortVoting::new(thrf, nc, nt).winners(stream.clone());
     let cands: Vec<u64> = { let mut c: Vec<u64> = stream.iter().map(|d| d.from).collect(); c.sort(); c.dedup(); c };
     let tracks: Vec<u64> = { let mut c: Vec<u64> = stream.iter().map(|d| d.to).collect(); c.sort(); c.dedup(); c };
-    let thr: i64 = (%(thrf)r_f32 * 1_000_000.0) as i64;
-    let w = |c: u64, t: u64| -> i64 { let mut r = 0i64; for d in &stream { if d.from == c && d.to == t { r = (d.attribute_metric.unwrap_or(0.0) * 1_000_000.0) as i64; } } r };
+    let thr: i64 = (thrf * 1_000_000.0) as i64;
+    let w = |c: u64, t: u64| -> i64 { let mut r = 0i64; for d in stream { if d.from == c && d.to == t { r = (d.attribute_metric.unwrap_or(0.0) * 1_000_000.0) as i64; } } r };
     fn best(i: usize, cands: &Vec<u64>, tracks: &Vec<u64>, used: &mut Vec<bool>, thr: i64, w: &dyn Fn(u64, u64) -> i64) -> i64 {
         if i == cands.len() { return 0; }
         let mut b = thr + best(i + 1, cands, tracks, used, thr, w);
@@ -338,9 +330,33 @@ fn replay() {
         assert_eq!(a.len(), 1);
         if a[0] == *c { total += thr; } else { assert!(tracks.contains(&a[0]), "answer is the candidate itself or a track"); assert!(seen.insert(a[0]), "no track twice"); total += w(*c, a[0]); }
     }
-    assert_eq!(total, optimum, "assignment must have maximum total weight");
+    assert_eq!(total, optimum, "assignment must have maximum total weight: stream {:?} threshold {}", stream.iter().map(|d| (d.from, d.to, d.attribute_metric)).collect::<Vec<_>>(), thrf);
+    for k in res.keys() { assert!(cands.contains(k)); }
 }
-''' % dict(thr=thr, thrf=thr / 1e6, nc=n['ncand'], nt=n['ntrk'], items=", ".join(items))
+
+#[test]
+fn replay() {
+    // the counterexample's stream structure (which candidate / track every entry refers to) with its weights first, then
+    // with every combination of grid weights (ties between optimal assignments are resolved differently by the real
+    // kuhn_munkres than by an arbitrary optimal solution, so the exact counterexample need not be the failing one)
+    let pairs: Vec<(u64, u64)> = vec![%(pairs)s];
+    let cex_w: Vec<f32> = vec![%(weights)s];
+    let grid = [0.0f32, 0.125, 0.25, 0.3125, 0.375, 0.5, 0.75, 0.875];
+    let mk = |ws: &Vec<Option<f32>>| -> Vec<ObservationMetricOk<Universal2DBox>> { pairs.iter().zip(ws.iter()).map(|(p, w)| ObservationMetricOk::new(p.0, p.1, *w, None)).collect() };
+    for thrf in [%(thrf)rf32, 0.3, 0.125, 0.5] {
+        check(&mk(&cex_w.iter().map(|w| Some(*w)).collect()), thrf, %(nc)d, %(nt)d);
+        let n = pairs.len();
+        let mut idx = vec![0usize; n];
+        loop {
+            let ws: Vec<Option<f32>> = idx.iter().map(|i| if *i == grid.len() { None } else { Some(grid[*i]) }).collect();
+            check(&mk(&ws), thrf, %(nc)d, %(nt)d);
+            let mut k = 0;
+            while k < n { idx[k] += 1; if idx[k] <= grid.len() { break; } idx[k] = 0; k += 1; }
+            if k == n { break; }
+        }
+    }
+}
+''' % dict(pairs=pairs, weights=", ".join(weights), thrf=g('threshold') / 1e6, nc=n['ncand'], nt=n['ntrk'] + n.get('extra', 0))
 
 
 SM = "similari::trackers::sort::metric::SortMetric::"
@@ -358,3 +374,10 @@ for (nc, nt, nr, ex, tier) in [(1, 1, 1, 0, 'quick'), (1, 2, 2, 0, 'quick'), (2,
                   "SortVoting::winners: one answer per candidate of the stream, no track twice, maximum total weight (unmatched = threshold)",
                   "%d candidates x %d tracks, stream of %d results (ids chosen by z3, duplicates allowed, weight Some/None), track_num = tracks + %d" % (nc, nt, nr, ex),
                   [SV], replay=_replay_assignment, max_paths=400000, timeout=3300, z3_timeout_ms=120000))
+
+
+# one whole predict call from an arbitrary valid tracker state (inductive step), see props/stepsort.py
+import stepsort as _step
+MIR += [q for q in _step.MIR if q.name in ('step_sort_d1_t1_s1', 'step_sort_d2_t1_s1', 'step_sort_d1_t2_s1', 'step_sort_d2_t2_s1')]
+EXPLANATION += " A whole Sort::predict_with_scene call is also executed from MIR on a symbolic tracker state (props/stepsort.py): real TrackStore code over the shard-map store model with the real worker loop, real builders / Track::add_observation / merge / SortMetric / SortAttributes / SortVoting code, kuhn_munkres by contract, geometry numbers and Kalman prediction uninterpreted - one record per detection in submission order echoing box, custom id, scene and the scene's new epoch; continuations only inside the scene, through the gate, for unexpired tracks, forming a maximum-weight one-to-one assignment; new ids = counter + k; lengths = detections attached; tracks that were not continued unchanged; only this scene's epoch advances. One step from an arbitrary valid state is the inductive step of the history statements."
+ASSUMPTIONS += ['predict step: <= 2 detections, <= 2 stored tracks (scene, last epoch, length, ids, custom ids symbolic; invariant: issued ids <= counter, last epoch <= scene epoch), 1 shard (thorough 2), IoU mode with threshold from {.25,.5}, IoU values from {.125,.25,.5,.75} or no overlap, confidences {.25,1}, min confidence .5, history length 2, auto-waste counter != 0 (no collection in this call); candidate ids random 64-bit values assumed distinct from all ids in use and non-zero; a FRESH Kalman filter initiated and updated with the same box returns that box (innovation exactly 0); workers run when the caller blocks; HashMap iteration in insertion order']
